@@ -1,6 +1,8 @@
 // C03 harness: runs libphysica::Integrate (adaptive Simpson) on the case file; see checks/C03.py for the grammar.
 // Output per call: value, warning flag (the "did not converge" message on stdout), number of integrand
 // evaluations and (op int) the abscissae in call order, or min/max when there are more than TRACE_CAP.
+// op seq: several calls in one process, some of them abandoned by an exception thrown by their integrand (X);
+// op nest: an integrand that calls the library's integrator itself at every abscissa (re-entrant use).
 #include "common.hpp"
 #include "libphysica/Integration.hpp"
 #include <algorithm>
